@@ -100,7 +100,27 @@ def rule_clock(fx, rep):
     for v in vs:
         rep.violation("C11-CLOCK", "C11-CLOCK/reset", v["msg"] + " (so the fifty-move count and the repetition window no longer follow the game history)", v["site"])
     rep.obligation(not vs)
-    rep.rule("C11-CLOCK", 1, 1, not vs, "halfmove clock reset exactly on captures and pawn moves (shared with C02-FORWARD)")
+    # who may write the clock: make_move (the rule above), the two take-backs (restore) and constructors. Any other writer - a
+    # null move that zeroes it, say - cuts the fifty-move count and the repetition window off from the game history below it.
+    allowed = ("Game::make_move", "Game::undo_move", "Game::undo_null_move")
+    nw, okw = 0, True
+    for b in fx.fn_bodies():
+        if "::tests::" in b.name:
+            continue
+        for (wb, wi, adt, fld, kind, place) in b.field_writes():
+            if fld != "halfmove_clock" or not adt.endswith("game::Game"):
+                continue
+            nw += 1
+            good = norm(b.name).endswith(allowed)
+            if not good and not b.raw.get("vis_pub"):
+                cs = [c for (c, _bb, _t) in fx.callers_of(lambda nm, _n=b.name: fx.body(nm) is not None and fx.body(nm).name == _n)]
+                good = bool(cs) and all(norm(c.name).endswith(allowed) for c in cs)
+            rep.obligation(good)
+            if not good:
+                okw = False
+                rep.violation("C11-CLOCK", f"C11-CLOCK/writer/{norm(b.name).split('::')[-1]}", f"`{b.name}` writes the halfmove clock: only make_move (reset exactly on captures and pawn moves) and the "
+                              "take-backs may; below such a write the fifty-move count and the repetition window no longer follow the game history", {"fn": b.name, "file": b.file, "line": b.line_of(wb)})
+    rep.rule("C11-CLOCK", 1 + nw, 1, not vs and okw, "halfmove clock reset exactly on captures and pawn moves (shared with C02-FORWARD); no other writer")
 
 
 # ---- C11-MATERIAL --------------------------------------------------------------------------
@@ -707,6 +727,8 @@ def cond_holds(c, val, dparam, d):
 
 G = "src/chess/game.rs"
 MUTANTS = [
+    {"name": "make_null_move zeroes the halfmove clock (seed C11-11a)", "expect": "C11-CLOCK/writer/make_null_move",
+     "edits": __import__("shared_mutants").edits_from_patch("seeded/C11-11a/patch.diff")},
     {"name": "an occurrence before the search root counts only when it is the second one (seed C11-9a)", "expect": "C11-REPKEY/parameter",
      "edits": __import__("shared_mutants").edits_from_patch("seeded/C11-9a/patch.diff")},
     {"name": "draw tests skipped at depth 0, before the check extension (seed C11-6a)", "expect": "C11-CALLERS/conditional/negamax",
